@@ -63,6 +63,18 @@ func (c *Ctx) ruleReflectDerefGuarded(rr *RuleRep) {
 				v = x.X
 			case *ssa.ChangeType:
 				v = x.X
+			case *ssa.TypeAssert:
+				// asserted to another interface: the same dynamic value (`switch e := err.(type) { … default: … e … }`)
+				if !types.IsInterface(x.AssertedType) {
+					return v
+				}
+				v = x.X
+			case *ssa.Extract:
+				ta, ok := x.Tuple.(*ssa.TypeAssert)
+				if !ok || x.Index != 0 || !types.IsInterface(ta.AssertedType) {
+					return v
+				}
+				v = ta.X
 			default:
 				r := c.Resolve(v)
 				if r == v {
